@@ -197,3 +197,24 @@ Lemma spec_step_eq sc P s a args :
            else if invariants_ok sc P (spec_succ P s acts) then Some (spec_succ P s acts) else None
        end.
 Proof. reflexivity. Qed.
+
+(* ------------------------------------------------------------------ problems that differ only in their actions *)
+Section SameSig.
+  Variables P P' : problem.
+  Hypothesis Ho : p_objs P' = p_objs P.
+  Hypothesis Hi : p_ifun P' = p_ifun P.
+  Hypothesis Hf : p_fluents P' = p_fluents P.
+  Hypothesis Hv : p_invs P' = p_invs P.
+
+  Lemma mk_interp_same s pars : mk_interp P' s pars = mk_interp P s pars.
+  Proof. unfold mk_interp, objs_of. rewrite Ho, Hi. reflexivity. Qed.
+
+  Lemma invariants_ok_same s : invariants_ok false P' s = invariants_ok false P s.
+  Proof. unfold invariants_ok. rewrite mk_interp_same, Hv, (bound_invs_sig P P' Ho Hf). reflexivity. Qed.
+
+  Lemma spec_step_same s a args : spec_step false P' s a args = spec_step false P s a args.
+  Proof. apply spec_step_cong; auto. intros acts _. apply invariants_ok_same. Qed.
+
+  Lemma goals_hold_same s : p_goals P' = p_goals P -> goals_hold false P' s = goals_hold false P s.
+  Proof. intros Hg. unfold goals_hold. rewrite mk_interp_same, Hg. reflexivity. Qed.
+End SameSig.
